@@ -43,7 +43,8 @@ pub fn render(files: &Value) -> JaxFiles {
         blocks.push(lines.join("\n"));
     }
     f.obo = blocks.join("\n\n") + "\n";
-    let extra = |n: u64| -> String { (0..n).map(|i| format!("\tcol{i}")).collect::<String>() };
+    // the extra columns carry arbitrary text - among it the word NOT, which is a qualifier only in the qualifier column
+    let extra = |n: u64| -> String { (0..n).map(|i| if i % 3 == 1 { "\tNOT".to_string() } else { format!("\tcol{i}") }).collect::<String>() };
     let header = match files["genes"]["header"].as_u64().unwrap() {
         1 => "#ncbi_gene_id\tgene_symbol\thpo_id\thpo_name",
         2 => "ncbi_gene_id\tgene_symbol\thpo_id\thpo_name\tfrequency\tdisease_id",
